@@ -82,8 +82,24 @@ Regs == {"default", "custom", "customcgs", "customrm"}
 Classes == {"quantity", "array", "unit"}
 
 PickleProtocols == {"pickle2", "pickle3", "pickle4", "pickle5"}
+(* ---- the savetxt / loadtxt call form (every documented savetxt parameter that shapes the file) ---- *)
+\* columns  c1 the object alone; c2 a km/hr column first, the object last; c3 a km/hr column, the object, a bare ndarray last
+\* header   h0 none; h2 two lines of words; hm a user header that contains the marker line "Units" and a unit word; hu one
+\*          line with as many unit-like words as there are columns
+\* footer   f0 none; fw one word ("end"); fu as many unit-like words as columns ("s kg K"...); fm the marker line "Units"
+\*          followed by a line of unit-like words; fn a bare number
+\* delimiter dt tab (default); dc comma; ds blank       usecols  u0 none; u1 only the object's column;
+\*          ur every column in REVERSED order; un the object's column by its NEGATIVE index
+\* The unit line savetxt writes is the comment line right before the first data row: that and nothing else names the units.
+SvC == {"c1", "c2", "c3"}   SvH == {"h0", "h2", "hm", "hu"}   SvF == {"f0", "fw", "fu", "fm", "fn"}   SvD == {"dt", "dc", "ds"}   SvU == {"u0", "u1", "ur", "un"}
+SvName(c, h, f, d, u) == "savetxt_" \o c \o "_" \o h \o "_" \o f \o "_" \o d \o "_" \o u
+SvDev(c, h, f, d, u) == (IF c = "c1" THEN 0 ELSE 1) + (IF h = "h0" THEN 0 ELSE 1) + (IF f = "f0" THEN 0 ELSE 1) + (IF d = "dt" THEN 0 ELSE 1) + (IF u = "u0" THEN 0 ELSE 1)
+SvAll == {SvName(c, h, f, d, u) : c \in SvC, h \in SvH, f \in SvF, d \in SvD, u \in SvU}
+\* every form that leaves the defaults in at most two parameters
+SvPairwise == {SvName(x[1], x[2], x[3], x[4], x[5]) : x \in {y \in SvC \X SvH \X SvF \X SvD \X SvU : SvDev(y[1], y[2], y[3], y[4], y[5]) <= 2}}
+SvLegacy == {"savetxt", "savetxt2"}      \* = c1 h0 f0 dt u0 and c2 h2 f0 dt u0
 AllPaths == PickleProtocols \cup {"pickle_nested", "pickle_withunit", "copy_copy", "deepcopy", "deepcopy_nested", "dot_copy",
-             "unit_copy_deep", "str_roundtrip", "json_registry", "string_roundtrip", "savetxt", "savetxt2"}
+             "unit_copy_deep", "str_roundtrip", "json_registry", "string_roundtrip"} \cup SvLegacy
 PClass(p) == CASE p \in PickleProtocols \cup {"pickle_nested", "pickle_withunit"} -> "pickle"
                [] p \in {"deepcopy", "deepcopy_nested"} -> "deepcopy"
                [] p = "unit_copy_deep" -> "unitdeep"
@@ -110,7 +126,7 @@ CONSTANTS MaxChain,     \* longest chain of persistence paths
           PathSet,      \* paths enabled in this instance
           Combos,       \* <<registry, unit name>> pairs enabled
           ClsSet, OrderSet,
-          PreSet        \* <<pre, memo>> pairs: what happened to the registry BEFORE the object was persisted
+          PreSet        \* <<pre, memo, sync>> triples: what happened to the registry BEFORE the object was persisted
 \* pre   "idlast"  every prefixed symbol the history uses was resolved (derived rows written back) BEFORE the registry's id
 \*                 (unit_system_id, an md5 of the table memoised in _unit_system_id) was computed and the "code" unit
 \*                 system was registered under it
@@ -118,21 +134,30 @@ CONSTANTS MaxChain,     \* longest chain of persistence paths
 \*                 writes derived rows into the table but does not reset the memoised id (unit_registry.py:333)
 \* memo  "warm"    the object's unit was built from the spelling str(unit): the registry's string memo holds it
 \*       "cold"    it was built from another spelling ("1*km"): Unit.copy() does not find it in the memo
+\* sync  "insync"   the unit the object carries is what its name means in its registry
+\*       "revalued" AFTER the object was created every symbol its unit names was re-valued with registry.modify (documented:
+\*                  "useful for adjusting code units after parsing parameters"); the existing object keeps the scale it was
+\*                  created with (the library's rule, C12) and differs from the table entry of the same name
+\*       "shadow"   the unit was built with the public constructor Unit(name, base_value=4*v, base_offset, dimensions):
+\*                  explicit values under a name the registry also holds
+\*       for the last two "warm" means: the name was looked up again afterwards, the string memo holds the TABLE's unit
 
 VARIABLES phase, obj, chain, st, fups, order
 vars == <<phase, obj, chain, st, fups, order>>
 
-NoObj == [cls |-> "", reg |-> "", unit |-> "", pre |-> "", memo |-> ""]
+NoObj == [cls |-> "", reg |-> "", unit |-> "", pre |-> "", memo |-> "", sync |-> ""]
 NoSt == [alive |-> FALSE, cls |-> "", ident |-> "na", regnew |-> FALSE, usys |-> "", lutkept |-> TRUE, idkept |-> TRUE, dimshared |-> TRUE, lutmixed |-> FALSE, key |-> "", unitkept |-> TRUE]
 Init == phase = "new" /\ obj = NoObj /\ chain = <<>> /\ st = NoSt /\ fups = <<>> /\ order = ""
 
 Available(r, u) == (UnitRow(u).cust => r # "default") /\ (r = "customrm" => u # "rad")
 OrigUsys(r) == IF r = "customcgs" THEN "cgs" ELSE "mks"
 
-Build(c, r, u, pre, memo) ==
+Build(c, r, u, pre, memo, sync) ==
   /\ phase = "new" /\ Available(r, u)
+  /\ (sync # "insync" => u # "dimensionless")   \* (names no symbol)
+  /\ (sync = "revalued" => r # "default")        \* (the default registry refuses modify)
   /\ (r = "default" => pre = "idlast")      \* the default registry's id is computed at import
-  /\ obj' = [cls |-> c, reg |-> r, unit |-> u, pre |-> pre, memo |-> memo]
+  /\ obj' = [cls |-> c, reg |-> r, unit |-> u, pre |-> pre, memo |-> memo, sync |-> sync]
   /\ st' = [alive |-> TRUE, cls |-> c, ident |-> IF UnitRow(u).dim = "compound" THEN "na" ELSE "singleton", regnew |-> FALSE,
             usys |-> OrigUsys(r), lutkept |-> TRUE, idkept |-> TRUE, dimshared |-> TRUE, lutmixed |-> FALSE, key |-> IF memo = "warm" \/ r = "default" THEN "expr" ELSE "cold", unitkept |-> TRUE]   \* (the default registry's memo is warm from import)
   /\ phase' = "paths" /\ UNCHANGED <<chain, fups, order>>
@@ -141,10 +166,17 @@ Build(c, r, u, pre, memo) ==
 UnitPaths == PickleProtocols \cup {"pickle_nested", "copy_copy", "deepcopy", "deepcopy_nested", "dot_copy", "unit_copy_deep", "str_roundtrip", "json_registry"}
 ArrayPaths == PickleProtocols \cup {"pickle_nested", "pickle_withunit", "copy_copy", "deepcopy", "deepcopy_nested", "dot_copy", "str_roundtrip", "json_registry"}
 \* savetxt/loadtxt has no registry argument: only demanded for objects of the default registry
+\* paths that carry the unit OBJECT (value, offset, dimensions) rather than its name: object copies, and the pickle of a Unit
+\* (default object protocol).  The other routes (pickle of arrays/quantities = str(units) + table, str(units), JSON, savetxt)
+\* carry the NAME: the statement itself lists "rebuilt from str(units)" as a route, so it speaks of units that are what their
+\* name means; an object that is out of sync with its registry is only demanded to survive the object-carrying routes
+Carrying(p, s) == \/ p \in {"copy_copy", "dot_copy", "deepcopy", "deepcopy_nested", "unit_copy_deep"}
+                  \/ s.cls = "unit" /\ p \in PickleProtocols \cup {"pickle_nested"}
 Applicable(p, s, o) ==
-  CASE s.cls = "unit" -> p \in UnitPaths
-    [] s.cls = "array" -> p \in ArrayPaths \cup (IF o.reg = "default" THEN {"savetxt", "savetxt2"} ELSE {})
-    [] OTHER -> p \in ArrayPaths \cup {"string_roundtrip"}
+  /\ CASE s.cls = "unit" -> p \in UnitPaths
+        [] s.cls = "array" -> p \in ArrayPaths \cup (IF o.reg = "default" THEN SvLegacy \cup SvAll ELSE {})
+        [] OTHER -> p \in ArrayPaths \cup {"string_roundtrip"}
+  /\ (o.sync # "insync" => Carrying(p, s))
 
 (* ---- what each path rebuilds ---- *)
 \* sympy's One is a true singleton and survives everything; compound dimensions are not compared by identity anywhere
@@ -195,6 +227,10 @@ PathEffect(p, s, o) ==
          THEN \* (since repository fix 852a543 the re-created unit is NOT put into the string memo: later look-ups of the
               \* same string are parsed from the table again)
               [s EXCEPT !.ident = Lose(s.ident, u), !.dimshared = IF s.ident \in {"copy", "na"} THEN s.dimshared ELSE FALSE]
+         ELSE IF p = "dot_copy" /\ s.cls = "unit" /\ o.sync # "insync"
+         THEN \* Unit.copy() = Unit(str(expr), value, offset, dimensions, copy(registry)): Unit.__new__ consults the string memo
+              \* BEFORE it looks at the explicit values (unit_object.py:211) and hands back the memoised unit - the table's
+              [s EXCEPT !.unitkept = FALSE, !.ident = Regain(s.ident), !.dimshared = TRUE]
          ELSE s
     [] c = "strrt" -> IF MemoHit(s, row) THEN s ELSE [Reparse(Rescale(s, o), u) EXCEPT !.key = IF s.key = "expr" THEN "expr" ELSE "str"]
     [] c = "json" -> [Rescale([s EXCEPT !.lutkept = s.lutkept /\ o.reg # "customrm"], o) EXCEPT !.ident = Regain(s.ident), !.regnew = TRUE, !.usys = "mks", !.idkept = FALSE, !.dimshared = TRUE, !.lutmixed = FALSE, !.key = "str"]
@@ -263,7 +299,7 @@ Follow(f) ==
 Terminal == \/ phase = "follow" /\ (Len(fups) = Len(FupSeq) \/ ~st.alive)
             \/ phase = "paths" /\ ~st.alive
 
-Next == \/ \E c \in ClsSet, ru \in Combos, pm \in PreSet : Build(c, ru[1], ru[2], pm[1], pm[2])
+Next == \/ \E c \in ClsSet, ru \in Combos, pm \in PreSet : Build(c, ru[1], ru[2], pm[1], pm[2], pm[3])
         \/ \E p \in PathSet : Persist(p)
         \/ \E o \in OrderSet : StartFollow(o)
         \/ \E f \in Fups : Follow(f)
